@@ -395,17 +395,30 @@ func Round3Generic(c *Ctx, id string) {
 	}
 	switch id {
 	case "C17":
+		emptinessTestCoversFilled(c, "emptiness-test-covers-filled", modPath("plugin/modelgen"), modPath("plugin/resolvergen"), modPath("plugin/federation"), modPath("codegen"))
+		filledCollectionIsRead(c, "filled-collection-is-read", modPath("plugin/modelgen"), modPath("codegen"), modPath("codegen/config"))
+		cleanupKeepsCachedPrefix(c)
+		typeReferenceUnaliases(c)
+		noSelfComparison(c, "no-self-comparison", modPath("internal/code"), modPath("codegen"), modPath("codegen/config"), modPath("codegen/templates"), modPath("plugin/modelgen"), modPath("plugin/resolvergen"), modPath("plugin/federation"))
 		c19Small(c)
 	case "C20":
+		testedErrorIsUsed(c, "tested-error-is-used")
 		addCountsSpawnedLoop(c, "add-counts-spawned-loop", true, pkgGraphql)
 		c20Round3(c, true)
 	case "C19":
+		mismatchContinuesSearch(c, "mismatch-continues-search", pkgRewrite)
+		filledCollectionIsRead(c, "filled-collection-is-read", pkgResolvergen, pkgRewrite)
+		pruneKeepsComments(c)
+		nameSwappedForwarding(c, "parameters-forwarded-in-place", pkgRewrite, pkgResolvergen, modPath("internal/imports"))
 		rewriterRound3(c)
 	case "C18":
+		mismatchContinuesSearch(c, "mismatch-continues-search", pkgRewrite)
+		typeReferenceUnaliases(c)
 		c19Small(c)
 		rewriterRound3(c)
 		c20Round3(c, true)
 	case "C11":
+		testedErrorIsUsed(c, "tested-error-is-used")
 		c05StreamSelect(c)
 		deferredReceiveCancellable(c)
 		c05ForkJoin(c)
@@ -437,6 +450,8 @@ func Round3Generic(c *Ctx, id string) {
 		c05WG(c)
 		c04HandlerShape(c)
 	case "C03":
+		callbackUsesOwnContext(c, "callback-uses-own-context", true, pkgGraphql, pkgExecutor)
+		responseHandlerGetsDispatchContext(c, "response-handler-gets-dispatch-context")
 		c09StatusVsDispatch(c, nil)
 		mutatorListsInOrderAndComplete(c)
 		rawParamsReadAfterMutators(c)
@@ -472,6 +487,10 @@ func Round3Generic(c *Ctx, id string) {
 		dispatchCtxCarriesOperation(c)
 		rawParamsJSONNames(c)
 	case "C07":
+		responseContextPerResponse(c)
+		freshResponseContextIsFresh(c)
+		getErrorsCopies(c)
+		lruGetPromotes(c)
 		c11TerminalFrame(c)
 		batchHasNextFromLast(c)
 		nilCheckContradiction(c, "nil-check-contradiction", pkgTransport)
@@ -502,12 +521,18 @@ func Round3Generic(c *Ctx, id string) {
 		c02ArgErrors(c)
 		c01Invalids(c)
 	case "C13":
+		incrementalHasNextOnlyFromBatch(c)
+		freshResponseContextIsFresh(c)
+		deferredErrorsAfterDispatch(c)
+		responseContextPerResponse(c)
 		c12Round2(c)
 		genRound3(c, "deferred-set-fresh", "hasnext-per-payload")
 		valueReceiverCopiesSync(c, "value-receiver-copies-sync", true, pkgTransport, pkgGraphql)
 		rootOnce(c)
 		genRound3(c, "deferred-fields")
 	case "C05":
+		panicUnderLock(c, "no-panic-under-lock", pkgGraphql, pkgTransport, pkgExecutor, pkgHandler, pkgExtension)
+		countedLoopHasNoEarlyExit(c, "counted-loop-no-early-exit", true, pkgGraphql)
 		locksReleasedIn(c, "locks-released-extensions", modPath("graphql/handler/apollotracing"), modPath("graphql/handler/apollofederatedtracingv1"), pkgExtension)
 		noReentrantLock(c, "no-reentrant-lock", modPath("graphql/handler/apollotracing"), modPath("graphql/handler/apollofederatedtracingv1"), pkgExtension, pkgGraphql, pkgTransport, pkgExecutor, pkgHandler)
 		oneShotIsOneShot(c)
@@ -519,6 +544,7 @@ func Round3Generic(c *Ctx, id string) {
 		genRound3(c, "stream-closed", "worker-limit")
 		stopDeferredAtOnce(c)
 	case "C06":
+		countedLoopHasNoEarlyExit(c, "counted-loop-no-early-exit", true, pkgGraphql)
 		noSharedErrorValues(c)
 		batchHasNextFromLast(c)
 		c02InputTable(c)
@@ -545,6 +571,12 @@ func Round3Generic(c *Ctx, id string) {
 		slotAndFunctionSameElement(c)
 		idMarshalersQuote(c)
 	case "C09":
+		forwardersKeepOrder(c, "forwarders-keep-order", modPath("handler"), pkgGraphql, pkgExtension, modPath("graphql/handler/lru"))
+		eventStreamLabelAfterRefusals(c)
+		cleanupBodyOrder(c)
+		graphqlResponseStatusOnlyWhenNegotiated(c)
+		nameSwappedForwarding(c, "parameters-forwarded-in-place", pkgTransport, pkgHandler, pkgExecutor, pkgExtension, modPath("handler"), modPath("graphql/handler/lru"))
+		constHaystack(c, "varying-string-is-searched", pkgTransport, pkgHandler, pkgExecutor, pkgExtension)
 		getParamFields(c)
 		decidedConditions(c, "decided-conditions", pkgTransport, pkgExecutor, pkgHandler)
 		dispatchCtxCarriesOperation(c)
@@ -566,6 +598,7 @@ func Round3Generic(c *Ctx, id string) {
 		uploadFieldsFromPart(c)
 		seekBasePerWhence(c)
 	case "C12":
+		eventStreamLabelAfterRefusals(c)
 		oneShotIsOneShot(c)
 		locksReleased(c, pkgTransport)
 		genRound2(c)
